@@ -7,11 +7,12 @@ set -e
 cd /verif
 MC=$(GOFLAGS=-mod=mod go1.26.8 env GOMODCACHE)
 TP=/verif/.third_party
-stamp="$TP/.stamp-v3"
+stamp="$TP/.stamp-v4"
 [ -f "$stamp" ] && exit 0
 rm -rf "$TP"; mkdir -p "$TP"
 cp -r "$MC/github.com/avast/retry-go/v4@v4.7.0" "$TP/retry-go"
 cp -r "$MC/github.com/tidwall/wal@v1.2.1" "$TP/wal"
+cp -r "$MC/github.com/ncruces/go-sqlite3@v0.30.5" "$TP/go-sqlite3"
 chmod -R u+w "$TP"
 python3 - <<'PY'
 import sys
@@ -42,6 +43,34 @@ def patch(path, old, new):
 # tidwall/wal: every mutating file-system operation goes through verif/engine/vos, which calls
 # vos.BeforeOp / vos.BeforeWrite (crash-image hooks) and is otherwise the os package
 patch('/verif/.third_party/wal/wal.go', '\t"os"\n', '\tos "verif/engine/vos"\n')
+# ncruces/go-sqlite3 default VFS: hook before every mutating operation of database / WAL / journal files
+f = '/verif/.third_party/go-sqlite3/vfs/file.go'
+patch(f, 'func (f *vfsFile) WriteAt(p []byte, off int64) (n int, err error) {\n',
+ 'func (f *vfsFile) WriteAt(p []byte, off int64) (n int, err error) {\n\tverifHook("write", f.File.Name(), off, p)\n')
+patch(f, 'func (f *vfsFile) Sync(flags SyncFlag) error {\n',
+ 'func (f *vfsFile) Sync(flags SyncFlag) error {\n\tverifHook("sync", f.File.Name(), 0, nil)\n')
+patch(f, 'func (vfsOS) Delete(path string, syncDir bool) error {\n',
+ 'func (vfsOS) Delete(path string, syncDir bool) error {\n\tverifHook("delete", path, 0, nil)\n')
+patch(f, '\t\tf, err = os.OpenFile(name.String(), oflags, 0666)\n',
+ '\t\tif isCreate {\n\t\t\tverifHook("open-create", name.String(), 0, nil)\n\t\t}\n\t\tf, err = os.OpenFile(name.String(), oflags, 0666)\n')
+open(f, 'a').write('''
+
+// VerifBeforeOp, when set by a verification harness, is called before every mutating
+// operation of the default VFS (crash-image hook).
+var VerifBeforeOp func(op, path string, off int64, data []byte)
+
+func verifHook(op, path string, off int64, data []byte) {
+	if h := VerifBeforeOp; h != nil {
+		h(op, path, off, data)
+	}
+}
+
+// Truncate shadows the promoted (*os.File).Truncate so that it passes the hook.
+func (f *vfsFile) Truncate(size int64) error {
+	verifHook("truncate", f.File.Name(), size, nil)
+	return f.File.Truncate(size)
+}
+''')
 PY
 touch "$stamp"
 echo "third_party ready"
